@@ -82,8 +82,9 @@ def closure(repo: Repo) -> List[Tuple[str, str, ast.FunctionDef]]:
             for cand in table.get(nm, []):
                 work.append(cand)
         if q.endswith('prepare_macro_call'):
+            scope = _macro_call_scope(repo)
             for r2, q2, f2 in every:
-                if '_PrepareMacroCall.' in q2:
+                if q2.startswith(scope + '.'):
                     work.append((r2, q2, f2))
         # str()/int()/f-string conversions call the dunders of repo classes
         if any(isinstance(n, (ast.JoinedStr,)) or (isinstance(n, ast.Call) and dotted(n.func) in ('str', 'int', 'repr')) for n in walk_no_nested(fn)):
@@ -103,7 +104,7 @@ def closure(repo: Repo) -> List[Tuple[str, str, ast.FunctionDef]]:
 
 ALLOW: Dict[str, str] = {
     # key: 'function:what'   (one symbol each, one line of reason)
-    'PreprocessorData._PrepareMacroCall.__exit__:self.curr_tree.pop()':
+    'PreprocessorData.<MacroCallScope>.__exit__:self.curr_tree.pop()':
         '__exit__ runs only after __enter__ returned, i.e. after its append',
     'FJParser.definable_line_statement:curr_namespace.pop()':
         'the grammar pairs this rule with the `namespace` rule, whose action appended the name',
@@ -132,8 +133,9 @@ def discharge(repo: Repo, rel: str, q: str, fn: ast.FunctionDef, s: Site, sub: C
         conv = handler_converts(h, sub)
         if conv in ('library', 'handled'):
             return f'HANDLER: except {norm(h.type) if h.type else "*"} -> {conv}'
-    if s.key in ALLOW:
-        return f'ALLOW: {ALLOW[s.key]}'
+    akey = s.key.replace(ctx.get('macro_call_scope', '\0'), 'PreprocessorData.<MacroCallScope>')     # the private class may be renamed
+    if akey in ALLOW:
+        return f'ALLOW: {ALLOW[akey]}'
     guards = dominating_guards(node)
     # loop conditions dominate their bodies
     child: ast.AST = node
@@ -146,6 +148,15 @@ def discharge(repo: Repo, rel: str, q: str, fn: ast.FunctionDef, s: Site, sub: C
     gd = GuardFacts(guards)          # canonical facts: spelling / nesting / negation of the guards does not matter
     if s.kind == 'subscript':
         base, key = norm(node.value), norm(node.slice)          # type: ignore[attr-defined]
+        # xs[i] where i is the variable of a loop / comprehension over range(len(xs))
+        for a in ancestors(node):
+            gens = a.generators if isinstance(a, (ast.ListComp, ast.SetComp, ast.GeneratorExp, ast.DictComp)) else \
+                [a] if isinstance(a, ast.For) else []
+            for g in gens:
+                if norm(g.target) == key and norm(g.iter) in (f'range(len({base}))', f'range(0, len({base}))'):
+                    return f'BOUNDED: {key} ranges over range(len({base}))'
+            if isinstance(a, (ast.FunctionDef, ast.AsyncFunctionDef)):
+                break
         if gd.get(f'{key} in {base}') is True or gd.get(f'{key} not in {base}') is False:
             return f'MEMBER: `{key} in {base}` guards the lookup'
         if base.startswith('p.') and isinstance(node.slice, ast.Constant):      # type: ignore[attr-defined]
@@ -169,7 +180,7 @@ def discharge(repo: Repo, rel: str, q: str, fn: ast.FunctionDef, s: Site, sub: C
                     'position) uses a name no identifier can spell (C03.FRESH-NAMES / C16.WRITERS)')
         if q == 'parse_macro_tree' and base == 'input_files' and gd.get('not input_files') is False:
             return 'GUARD: empty file list rejected above'
-        if q == 'Writer._update_to_relative_jumps' and base == 'self.data' and 'V6' in ctx['writer_validated']:
+        if q == ctx['reljump_writer'] and base == 'self.data' and 'V6' in ctx['writer_validated']:
             return 'GUARD: add_segment validates the data range against the pool before the rewrite (C06 V6)'
         return None
     if s.kind == 'binop':
@@ -240,6 +251,9 @@ def _is_range_index(node: ast.AST, name: str) -> bool:
 def context(repo: Repo) -> Dict[str, Any]:
     from .c06 import writer_validated
     ctx: Dict[str, Any] = {}
+    ctx['macro_call_scope'] = _macro_call_scope(repo)
+    from .c06 import reljump_writer
+    ctx['reljump_writer'] = reljump_writer(repo)
     ctx['const_names'] = {'w'}
     # defaultdict attributes
     dd = set()
@@ -264,7 +278,7 @@ def context(repo: Repo) -> Dict[str, Any]:
     ctx['writer_flags_validated'] = any('flags < 0' in g and '1 << 64' in g for g in wg) and 'version not in SUPPORTED_VERSIONS_NAMES' in wg
     ctx['writer_validated'] = writer_validated(repo)[0]
     # macro lookup guard
-    ent = repo.func(PRE, 'PreprocessorData._PrepareMacroCall.__enter__')
+    ent = repo.func(PRE, _macro_call_scope(repo) + '.__enter__')
     guarded = any(isinstance(n, ast.If) and cn(n.test) == cc('macro_name not in self.macros') and
                   any(isinstance(c, ast.Call) and dotted(c.func) == 'macro_resolve_error' for c in ast.walk(n)) for n in ast.walk(ent))
     mre = repo.func(PRE, 'macro_resolve_error')
@@ -356,6 +370,18 @@ def _sites_of(repo: Repo, rel: str, q: str, fn: ast.FunctionDef) -> List[Site]:
     return collect_sites(_R(), rel, q)       # type: ignore[arg-type]
 
 
+def _macro_call_scope(repo: Repo) -> str:
+    """qualified name of the context-manager class nested in PreprocessorData whose __enter__ pushes the call on curr_tree (the
+    macro-call scope) - found by what it does, so renaming the private class changes nothing."""
+    cls = repo.cls(PRE, 'PreprocessorData')
+    for st in cls.body:
+        if isinstance(st, ast.ClassDef):
+            ent = [m for m in st.body if isinstance(m, ast.FunctionDef) and m.name == '__enter__']
+            if ent and any(isinstance(c, ast.Call) and dotted(c.func).endswith('curr_tree.append') for c in ast.walk(ent[0])):
+                return f'PreprocessorData.{st.name}'
+    raise AnalysisError('PreprocessorData: the macro-call scope class (an __enter__ that appends to curr_tree) was not found')
+
+
 def rule_recursion(rep: Report, repo: Repo, clo: List[Tuple[str, str, ast.FunctionDef]]) -> None:
     rep.rule('C14.RECURSION', 'directly recursive functions over input-sized structures have a depth guard or a converting '
              'handler (else a deep input becomes RecursionError -> generic failure)', 4)
@@ -370,7 +396,7 @@ def rule_recursion(rep: Report, repo: Repo, clo: List[Tuple[str, str, ast.Functi
         guarded = False
         why = ''
         if q == 'resolve_macro_aux':
-            ent = repo.func(PRE, 'PreprocessorData._PrepareMacroCall.__enter__')
+            ent = repo.func(PRE, _macro_call_scope(repo) + '.__enter__')
             depth = any(isinstance(n, ast.If) and cn(n.test) == cc('len(self.curr_tree) > self.max_recursion_depth') for n in ast.walk(ent))
             pinit = repo.func(PRE, 'PreprocessorData.__init__')
             lim = [norm(c.args[0]) for c in calls(pinit) if dotted(c.func) == 'sys.setrecursionlimit']
